@@ -401,7 +401,7 @@ func vfAssert(p *path, caller *frame, args []value) value {
 	mk := func(m map[string]uint64, known string) *Violation {
 		return &Violation{
 			Harness: "", Property: p.propertyOf(clause), Clause: clause, Model: p.modelToInputs(m),
-			Decisions: append([]int{}, p.decisions...), Known: known, EnvChoice: p.envChoices > 0,
+			Decisions: append([]int{}, p.decisions...), Known: known, EnvChoice: p.envDeviations > 0,
 		}
 	}
 	r, m := p.sol.Check(purposeAssert, true, p.allVars(), notc, excl)
